@@ -416,7 +416,7 @@ def _n_old_value():
     return N.GHOST["value0"]
 
 
-NATIVE = {"helpers": {"old_value": _n_old_value, "snapshot_value": __import__("copy").deepcopy, "is_str": lambda v: isinstance(v, str), "jsonified": _n_jsonified, "deep": __import__("copy").deepcopy, "url_of": _n_url, "is_empty_dict": lambda v: isinstance(v, dict) and len(v) == 0, "same": _n_same},
+NATIVE = {"helpers": {"is_bytes": lambda v: isinstance(v, bytes), "old_value": _n_old_value, "snapshot_value": __import__("copy").deepcopy, "is_str": lambda v: isinstance(v, str), "jsonified": _n_jsonified, "deep": __import__("copy").deepcopy, "url_of": _n_url, "is_empty_dict": lambda v: isinstance(v, dict) and len(v) == 0, "same": _n_same},
           "patch": {"schemathesis.transport.prepare:prepare_url": _n_url, "schemathesis.transport.requests:prepare_url": _n_url}}
 
 
@@ -546,6 +546,37 @@ for _loc in _TKW:
         max_paths=5000,
         replayable=False,
     )
+
+
+# ------------------------------------------------------------------------------------------------- body serializers: JSON bodies and urlencoded forms go out as generated
+TSER = "schemathesis.transport.serialization:"
+R.contract(
+    TSER + "serialize_json",
+    prop="C06",
+    args={"value": OneOf(NoneT, Opq("JsonBody"), Str, Int, Bool, Const(b"raw-bytes"), DictOf(optional={"k": Opq("JsonBody")}), ListOf(Opq("JsonBody"), [0, 1]))},
+    raises=[],
+    ensures={
+        # the generated body IS what is handed to the HTTP library for JSON encoding (no copy, no conversion) - except `None`, which must become the JSON text `null`
+        # (None means "no body" to requests / werkzeug), and raw bytes (explicit external examples), which are sent as they are
+        "a_generated_value_is_passed_on_unchanged_for_json_encoding": "implies(value is not None and not is_bytes(value), sorted(result) == ['json'] and same(result['json'], value))",
+        "none_is_sent_as_the_json_text_null": "implies(value is None, result == {'data': b'null'})",
+        "raw_bytes_are_sent_as_they_are": "implies(is_bytes(value), sorted(result) == ['data'] and result['data'] is value)",
+    },
+)
+R.spec_funcs["is_bytes"] = lambda it, v: isinstance(v, bytes)
+R.contract(
+    "schemathesis.core.transport:prepare_urlencoded",
+    prop="C06",
+    args={"data": OneOf(Opq("FormObject"), DictOf(optional={"a": Str}), ListOf(OneOf(DictOf(optional={"a": Opq("FormValue"), "b": Opq("FormValue")}), Str), [0, 1, 2]))},
+    raises=[],
+    ensures={
+        # an object (the normal case) is passed on as it is; a list of objects (only reachable in negative tests) becomes the list of ALL its key / value pairs, in order
+        "objects_are_passed_on_unchanged": "implies(not is_instance(data, 'list'), result is data)",
+        "every_pair_of_every_listed_object_is_kept_in_order": "implies(is_instance(data, 'list'), list(result) == "
+                                                              "[q for item in data for q in ([(k, item[k]) for k in item] if is_instance(item, 'dict') else [(item, 'arbitrary-value')])])",
+    },
+    bounded_note="lists of up to 2 items, objects with up to 2 members",
+)
 
 LEVEL_TEXT = ("Deductive: each style encoder against the wire form of the OpenAPI serialization table, serialize_case's query/cookie/method/url pass-through; "
               "arrays/objects explored up to a small size (labelled bounded). URL composition and the requests library are trusted. Level other.")
